@@ -27,7 +27,7 @@ PROFILE = S.profile(renames=0.1, dups=0.0, attrs=0.1, sizes=[("small", 95), ("me
 @st.composite
 def cases(draw, tier="quick"):
     spec = draw(S.enum_specs(PROFILE))
-    cfg = draw(S.configs(spec, p_on=0.5))
+    cfg = draw(S.configs(spec, p_on=[0.15, 0.5, 0.5, 0.85]))
     return {"spec": spec, "cfg": cfg}
 
 
